@@ -595,6 +595,15 @@ class NAHooks(Hooks):
         if name in ('sum', 'prod', 'max', 'min', 'amax', 'amin', 'mean',
                     'cumsum', 'cumprod', 'any', 'all'):
             return lambda v, *a, **k: H.reduce(I, name, na_of(v), *a, **k)
+        if name == 'cross':
+            def cross(a, b, **k):
+                a, b = na_of(a), na_of(b)
+                try:
+                    res = _np.cross(H.ratify(a.a), H.ratify(b.a), **k)
+                except ValueError as e:
+                    raise _np_err(e)
+                return wrap(res, promote(a.dt, b.dt))
+            return cross
         if name in ('dot', 'vdot', 'inner', 'outer', 'tensordot', 'matmul'):
             def dot(a, b, *r, **k):
                 a, b = na_of(a), na_of(b)
@@ -1036,6 +1045,14 @@ class NAMixin(object):
                 res.generic = True
             return res
         return super(NAMixin, self).cmp1(op, l, r, node)
+
+    def invert_array(self, v):
+        if v.dt.d.kind != 'b':
+            raise Undecided('~ on a non-boolean array')
+        r = NA(_np.frompyfunc(lambda x: not bool(x), 1, 1)(v.a), v.dt)
+        if getattr(v, 'generic', False):
+            r.generic = True
+        return r
 
     def truth_value(self, v, node=None):
         if isinstance(v, NA):
